@@ -91,6 +91,11 @@ func hourRun() runSpec {
 	return runSpec{engine: "prefixhour", parallel: 6, tBatches: 6, tCases: 1, stall: 5 * time.Minute, background: true}
 }
 
+// idleRun: the prefix plugin after 75 s of silence (thorough tier only, beside the other runs)
+func idleRun() runSpec {
+	return runSpec{engine: "prefixidle", parallel: 4, tBatches: 4, tCases: 1, stall: 5 * time.Minute, background: true}
+}
+
 // raceSlice: a small slice of the concurrent dual-stack workload (-race) for properties whose breaks may
 // need two datagrams in flight (the full-size run belongs to C16)
 func raceSlice() runSpec {
@@ -152,7 +157,7 @@ var specs = map[string]*propSpec{
 		guard{"prefix.replies", 5000, "replies observed"}, guard{"prefix.noprefixavail", 50, "exhaustion"}, guard{"prefix.hint.in-pool-others", 100, "hints on other clients' prefixes"}).with(hourRun()),
 	"C09": prefixSpec("Non-trivial (C09) = history in which a client that already holds a prefix sent another IA_PD (renewal, hint-less repeat or retransmission); distinct by (pool, clients, seed)",
 		guard{"prefix.repeat_or_renewal_from_holder", 2000, "renewals/repeats by holders"}, guard{"prefix.hint.own", 500, "exact renewals"}, guard{"prefix.hint.none", 1000, "hint-less IA_PDs"},
-		guard{"prefix.hint.length-0", 200, "length-0 hints"}, guard{"prefix.audits", 300, "conservation audits"}, guard{"prefix.retransmissions", 500, "retransmissions"}).with(wireVarRun()),
+		guard{"prefix.hint.length-0", 200, "length-0 hints"}, guard{"prefix.audits", 300, "conservation audits"}, guard{"prefix.retransmissions", 500, "retransmissions"}).with(wireVarRun(), idleRun()),
 	"C10": {
 		level:       "exploration",
 		rule:        "three kinds of case, each in a fresh server process through LoadPlugins: (static) a generated lease file of 1-40 lines - every MAC spelling (colon/hyphen/dot, 6/8/20 bytes, case) and address spelling (dotted, v4-mapped, compressed/expanded/upper-case IPv6), tabs/multiple blanks, comments, blank lines, duplicates, and in a third of the files one malformation (field count, MAC, address, wrong family) at a random position - accepted iff the reference parser accepts it, and then every listed MAC (and 3 unlisted) is asked for: listed -> last address listed (yiaddr + chain ends; exactly one IA_NA with the request's IAID), unlisted / no IA_NA -> reply identical to the reply without the plugin; (refresh) autorefresh with 1-10 good/bad updates of self-identifying versions, written in place (single equal-length pwrite) or installed by renaming a new file over the name, with or without a hard link that keeps the old file alive: each poll sequence must be old-or-new and monotone, a good version must be served for all MACs within 400 polls / 20 s (re-armed once), a bad one must leave the old version served; (dual) DHCPv4 and DHCPv6 instances in one process with their own files and independent rewrites. Non-trivial = static file with >= 2 entries or malformed, every refresh sequence, every dual case; distinct by content",
@@ -240,7 +245,7 @@ var specs = map[string]*propSpec{
 		runs: []runSpec{{engine: "setup", qBatches: 16, qCases: 180, tBatches: 64, tCases: 4000},
 			// accepted configurations with several instances of one plugin (dual-stack and twin file instances, empty lease files)
 			{engine: "file", parallel: 12, qBatches: 8, qCases: 12, tBatches: 32, tCases: 60, stall: 6 * time.Minute}},
-		guards:      []guard{{"setup.accepted", 200, "accepted vectors"}, {"setup.rejected", 200, "rejected vectors"}, {"setup.replies_round_tripped", 3000, "replies round-tripped"}},
+		guards: []guard{{"setup.accepted", 200, "accepted vectors"}, {"setup.rejected", 200, "rejected vectors"}, {"setup.replies_round_tripped", 3000, "replies round-tripped"}},
 	},
 	"C20": {
 		level: "exploration",
